@@ -71,7 +71,7 @@ StepRoll(o, s, v) ==
 OutRoll(o, s, s1, v) ==
   CASE o = "sum"  -> IF s1.nn >= minp THEN s1.acc ELSE Null
     [] o = "mean" -> IF s1.nn >= minp /\ s1.nn > 0 THEN Rat(s1.acc, s1.nn) ELSE NullRat
-    [] o \in {"min", "max"} -> IF s1.nn >= minp THEN s1.acc ELSE Null
+    [] o \in {"min", "max"} -> IF s1.nn >= minp /\ s1.nn > 0 THEN s1.acc ELSE Null   \* (min_periods = 0: no value, no extreme)
     [] o = "shift" -> IF s.seen >= W THEN s.buf[s.pos] ELSE Null
     [] o = "diff"  -> IF s.seen >= W /\ s.buf[s.pos] # Null /\ v # Null THEN v - s.buf[s.pos] ELSE Null
 
